@@ -568,6 +568,10 @@ HTPcreate(filerec_t *file_rec, /* IN: File record to store info in */
     if (HTIregister_tag_ref(file_rec, dd_ptr) == FAIL)
         HGOTO_ERROR(DFE_INTERNAL, FAIL);
 
+    /* Keep the file's maximum ref # current, so that Hnewref never hands out this ref */
+    if (ref > file_rec->maxref)
+        file_rec->maxref = ref;
+
     /* Get the atom to return */
     if ((ret_value = HAregister_atom(DDGROUP, dd_ptr)) == FAIL)
         HGOTO_ERROR(DFE_INTERNAL, FAIL);
